@@ -85,6 +85,9 @@ type c14case struct {
 	bigPads  bool // some events exceed 64 KiB
 }
 
+// panicEntry: the event is started with Logger.Panic() (its level is then PanicLevel)
+func (c *c14case) panicEntry(ei int) bool { return c.levels[ei] == zerolog.PanicLevel && (c.salt/3+ei)%2 == 0 }
+
 // pad: some events are larger than the pooled 500-byte buffer, a few (bigPads) larger than 64 KiB
 func (c *c14case) pad(ei int) int {
 	switch (c.salt/4 + ei) % 5 {
@@ -178,7 +181,20 @@ func c14run(out *evid.Out, c *c14case) {
 		var pan interface{}
 		func() {
 			defer func() { pan = recover() }()
-			e := l.WithLevel(c.levels[ei]).Int("i", ei)
+			var e *zerolog.Event
+			if c.panicEntry(ei) {
+				// Logger.Panic(): the event is written, the write error (if any) is reported, then the call panics
+				defer func() {
+					if r := recover(); r != nil {
+						if _, ok := r.(string); !ok {
+							panic(r)
+						}
+					}
+				}()
+				e = l.Panic().Int("i", ei)
+			} else {
+				e = l.WithLevel(c.levels[ei]).Int("i", ei)
+			}
 			if n := c.pad(ei); n > 0 {
 				e = e.Str("pad", strings.Repeat("x", n))
 			}
